@@ -79,6 +79,10 @@ pub fn scratch_dir() -> PathBuf {
 /// process-wide state.
 pub fn execute_in_child(plan: &Plan, stats: &mut Stats) -> Outcome {
     let exe = std::env::current_exe().expect("current_exe");
+    execute_in_child_with(&exe, plan, stats)
+}
+
+pub fn execute_in_child_with(exe: &Path, plan: &Plan, stats: &mut Stats) -> Outcome {
     let mut child = Command::new(exe)
         .arg("exec1")
         .stdin(Stdio::piped())
@@ -175,6 +179,12 @@ pub struct Job {
     pub world: &'static dyn World,
     pub ask: Ask,
     pub runs: u64,
+    /// Alternative worker executable (e.g. the AddressSanitizer build).
+    pub exe: Option<PathBuf>,
+    /// Offset added to run indices (so that a sanitizer replay covers the
+    /// same plans as the native job, or a different slice).
+    pub first_index: u64,
+    pub label: &'static str,
 }
 
 pub struct Found {
@@ -380,13 +390,13 @@ fn parse_violation(j: &J) -> Violation {
 /// Runs one job on `workers` processes.
 pub fn run_job(job: &Job, seed: u64, workers: usize, scratch: &Path, tag: &str) -> JobResult {
     let start = Instant::now();
-    let exe = std::env::current_exe().expect("current_exe");
+    let exe = job.exe.clone().unwrap_or_else(|| std::env::current_exe().expect("current_exe"));
     let workers = workers.max(1).min(job.runs.max(1) as usize);
     let per = job.runs.div_ceil(workers as u64);
     let mut children = Vec::new();
     for w in 0..workers {
-        let from = w as u64 * per;
-        let to = ((w as u64 + 1) * per).min(job.runs);
+        let from = job.first_index + w as u64 * per;
+        let to = job.first_index + ((w as u64 + 1) * per).min(job.runs);
         if from >= to {
             continue;
         }
@@ -580,6 +590,8 @@ pub fn run_check(
     jobs: Vec<Job>,
     level: &str,
     extra: Option<J>,
+    extra_lines: Vec<String>,
+    extra_violations: u64,
 ) -> CheckReport {
     let start = Instant::now();
     let root = verif_root();
@@ -622,6 +634,7 @@ pub fn run_check(
         per_world.push(
             J::obj()
                 .with("world", J::str(job.world.name()))
+                .with("engine", J::str(if job.label.is_empty() { "native" } else { job.label }))
                 .with("runs", J::u(res.stats.runs))
                 .with("nontrivial_runs", J::u(res.stats.nontrivial_runs))
                 .with("ops_executed", J::u(res.stats.ops_executed))
@@ -640,19 +653,34 @@ pub fn run_check(
             }
         }
         for (idx, text) in &res.crashes {
-            // A dead worker: regenerate the plan, write it as the replay file.
+            // A dead worker: regenerate the plan, minimise it by re-executing
+            // candidates in fresh processes, write it as the replay file.
             let plan = job.world.generate(seed, *idx, job.ask);
             let crash_prop = crate::crash_property(job.world.name());
-            let v = Violation {
+            let exe = job.exe.clone().unwrap_or_else(|| std::env::current_exe().expect("current_exe"));
+            let v0 = Violation {
                 prop: crash_prop,
                 inv: format!("{}.process_died", crash_prop),
                 detail: text.clone(),
                 at_op: usize::MAX,
                 key: String::new(),
             };
-            let path = replay_dir.join(format!("{}-{}-crash{}.json", crash_prop, seed, idx));
-            std::fs::write(&path, replay_json(&plan, &v, 0, plan.ops.len()).pretty())
-                .expect("harness: cannot write replay");
+            let mut scratch_stats = Stats::default();
+            let original_ops = plan.ops.len();
+            let first = execute_in_child_with(&exe, &plan, &mut scratch_stats).violations.into_iter().find(|v| v.inv == v0.inv);
+            let (plan, v, execs) = match first {
+                Some(v1) => {
+                    let res = minimise(&plan, v1, |cand| execute_in_child_with(&exe, cand, &mut scratch_stats).violations, Duration::from_secs(120), 400);
+                    (res.plan, res.violation, res.executions)
+                }
+                None => (plan, v0, 0),
+            };
+            let path = replay_dir.join(format!("{}-{}-{}crash{}.json", crash_prop, seed, job.label, idx));
+            let mut rj = replay_json(&plan, &v, execs, original_ops);
+            if let Some(e) = &job.exe {
+                rj.set("replay_with", J::str(&e.display().to_string()));
+            }
+            std::fs::write(&path, rj.pretty()).expect("harness: cannot write replay");
             if crash_prop == prop {
                 violations += 1;
                 reported.push(format!(
@@ -748,6 +776,10 @@ pub fn run_check(
     for r in &reported {
         println!("{}", r);
     }
+    for l in &extra_lines {
+        println!("{}", l);
+    }
+    violations += extra_violations;
 
     let wall = start.elapsed().as_secs_f64();
     let mut counters = J::obj();
